@@ -549,10 +549,6 @@ def build_rules(ck, T):
         w = fresh_int('w')
         # in-bounds index array (the property's quantifier)
         S.assume(z3.ForAll([w], z3.Implies(IX.Mult(t, w) > 0, z3.And(-size <= w, w < size)), patterns=[IX.Mult(t, w)]))
-        alias = z3.Exists([w], z3.And(0 <= w, w < size, IX.Mult(t, w) > 0, IX.Mult(t, w - size) > 0))
-        alias_case = S.choose(2)
-        S.assume(alias if alias_case == 1 else z3.Not(alias))
-        S.inputs['negative_aliases'] = bool(alias_case)
         v = S.int('v')
         S.assume(z3.And(0 <= v, v < size))
         S.inputs['mult_v'] = IX.Mult(t, v)
@@ -560,14 +556,26 @@ def build_rules(ck, T):
         sc = cov.ghost['scatter']
         U, C = sc['U'], sc['C']
         ug = U.ghost.get('unique')
+        sh = IX.f_ishape(t)
+        # search guidance only — where the two known ways of truncating jnp.unique show first, on an axis of length 2:
+        # (A) an index array of shape (2, 1) hitting both positions (more distinct values than its last axis is long);
+        # (B) the entries 1, -1, 0 (negative alias: three distinct raw values)
+        hint_a = z3.And(IX.f_irank(t) == 2, sh[0] == 2, sh[1] == 1, IX.Mult(t, 0) == 1, IX.Mult(t, 1) == 1,
+                        IX.Mult(t, -1) == 0, IX.Mult(t, -2) == 0)
+        hint_b = z3.And(IX.f_irank(t) == 1, sh[0] == 3, IX.Mult(t, 0) == 1, IX.Mult(t, 1) == 1, IX.Mult(t, -1) == 1,
+                        IX.Mult(t, -2) == 0)
         if ug is not None:
-            # lemma instances (trusted finite combinatorics, see theories/indexing.py)
+            # instances of the unique contract (every occurring value is among the distinct values) at the two values
+            # that can address position v, and the lemma instances (trusted finite combinatorics, theories/indexing.py)
+            S.assume(z3.And(ug['member'](v), ug['member'](v - size)))
             S.assume(IX.sum_support(U.elems, C.elems, U.length, cov.length, v, ug['Pos'](v), ug['Pos'](v - size)))
             S.assume(IX.pigeonhole(ug['UF'], ug['D'], to_z3(cov.length)))
+            hint_a = z3.And(hint_a, ug['D'] == 2, ug['UF'][0] == 0, ug['UF'][1] == 1, ug['Pos'](1) == 1, ug['Pos'](-1) == 0)
+            hint_b = z3.And(hint_b, ug['D'] == 3, ug['UF'][0] == -1, ug['UF'][1] == 0, ug['UF'][2] == 1, ug['Pos'](1) == 2,
+                            ug['Pos'](-1) == 0)
+        hint = z3.And(size == 2, n == 1, v == 1, z3.Or(hint_a, hint_b))
         goal = cov.elems[v] == IX.Mult(t, v) + IX.Mult(t, v - size)
-        S.oblige('post', goal, finding=F_ALIAS if alias_case == 1 else None,
-                 hint=z3.And(size == 2, n == 1, v == 1) if alias_case == 1 else None,
-                 tag='coverage[v]-is-the-number-of-entries-selecting-position-v' + (' (negative aliases present)' if alias_case else ''))
+        S.oblige('post', goal, finding=F_ALIAS, hint=hint, tag='coverage[v]-is-the-number-of-entries-selecting-position-v')
     for uc in (0, 1):
         for nl in (1, 2):
             ck.explore(f'{IND}.TransposeIndexRule.apply', (lambda uc, nl: lambda S: transpose_index(S, uc, nl))(uc, nl), T,
